@@ -1,19 +1,34 @@
 pub mod common;
+pub mod c01;
 pub mod c02;
+pub mod c09;
+pub mod c10;
+pub mod c13;
+pub mod c15;
 
 use crate::report::{Ctx, Report};
 use serde_json::Value;
 
 pub fn run(ctx: &Ctx) -> Option<Report> {
     Some(match ctx.id.as_str() {
+        "C01" => c01::run(ctx),
         "C02" => c02::run(ctx),
+        "C09" => c09::run(ctx),
+        "C10" => c10::run(ctx),
+        "C13" => c13::run(ctx),
+        "C15" => c15::run(ctx),
         _ => return None,
     })
 }
 
 pub fn replay(ctx: &Ctx, v: &Value) -> Option<bool> {
     Some(match ctx.id.as_str() {
+        "C01" => c01::replay(ctx, v),
         "C02" => c02::replay(ctx, v),
+        "C09" => c09::replay(ctx, v),
+        "C10" => c10::replay(ctx, v),
+        "C13" => c13::replay(ctx, v),
+        "C15" => c15::replay(ctx, v),
         _ => return None,
     })
 }
